@@ -104,6 +104,13 @@ func Run(ctx *core.Ctx) {
 	}
 	close(sjobs)
 	wg.Wait()
+
+	// torn bodies
+	for _, f := range []string{"garbage-chunk", "corrupt-gzip", "short-cl"} {
+		for _, size := range []int{10, 3000, 40000}[:ctx.N(2, 3)] {
+			runTorn(ctx, &tornCase{Kind: "torn", Fault: f, Size: size})
+		}
+	}
 }
 
 func replayWith(ctx *core.Ctx, pool *envPool, raw json.RawMessage) {
@@ -117,6 +124,11 @@ func replayWith(ctx *core.Ctx, pool *envPool, raw json.RawMessage) {
 		var sc streamCase
 		json.Unmarshal(raw, &sc)
 		runStream(ctx, &sc)
+		return
+	case "torn":
+		var tc tornCase
+		json.Unmarshal(raw, &tc)
+		runTorn(ctx, &tc)
 		return
 	case "one":
 		var o oneEx
@@ -266,4 +278,100 @@ func runStream(ctx *core.Ctx, sc *streamCase) {
 	case <-done:
 	case <-time.After(time.Second):
 	}
+}
+
+// ---- torn bodies: the origin's body goes bad after the head was relayed ----
+
+// tornCase: the origin sends a valid head and first part of the body, then something the proxy cannot
+// relay (a garbage chunk-size line, a corrupt gzip stream, fewer bytes than Content-Length then FIN).
+// The proxy has already sent the response head, so the only clean outcome is: the client sees an
+// incomplete message and the connection is closed — never a later response inside this body.
+type tornCase struct {
+	Kind  string `json:"kind"`  // "torn"
+	Fault string `json:"fault"` // "garbage-chunk" | "corrupt-gzip" | "short-cl"
+	Size  int    `json:"size"`
+}
+
+func runTorn(ctx *core.Ctx, tc *tornCase) {
+	key, _ := json.Marshal(tc)
+	ctx.Case(string(key), true)
+	ctx.Count("torn/" + tc.Fault)
+	payload := bytes.Repeat([]byte("torn body "), tc.Size/10+1)[:tc.Size]
+	origin, err := rig.NewPeer("torn-origin", func(w *rig.PeerConn, ex *rig.Exchange) bool {
+		if ex.Req.Get("Case-Id") != "torn" {
+			w.Write([]byte("HTTP/1.1 200 OK\r\nContent-Length: 15\r\nX-Echo-Id: second\r\n\r\nsecond-response"))
+			return true
+		}
+		switch tc.Fault {
+		case "garbage-chunk":
+			fmt.Fprintf(w, "HTTP/1.1 200 OK\r\nTransfer-Encoding: chunked\r\nX-Echo-Id: torn\r\n\r\n%x\r\n%s\r\n", len(payload), payload)
+			time.Sleep(30 * time.Millisecond)
+			w.Write([]byte("ZZ\r\nnot a chunk\r\n0\r\n\r\n"))
+			return true
+		case "corrupt-gzip":
+			var zb bytes.Buffer
+			zw := gzipWriter(&zb)
+			zw.Write(payload)
+			zw.Close()
+			z := zb.Bytes()
+			for i := len(z) / 2; i < len(z)/2+8 && i < len(z); i++ {
+				z[i] ^= 0xff
+			}
+			fmt.Fprintf(w, "HTTP/1.1 200 OK\r\nContent-Encoding: gzip\r\nTransfer-Encoding: chunked\r\nX-Echo-Id: torn\r\n\r\n%x\r\n", len(z))
+			w.Write(z)
+			w.Write([]byte("\r\n0\r\n\r\n"))
+			return true
+		default: // short-cl
+			fmt.Fprintf(w, "HTTP/1.1 200 OK\r\nContent-Length: %d\r\nX-Echo-Id: torn\r\n\r\n", len(payload)+100)
+			w.Write(payload)
+			return false
+		}
+	})
+	if err != nil {
+		core.Fatalf("torn origin: %v", err)
+	}
+	defer origin.Close()
+	p, err := rig.StartProxy(rig.ProxyOpts{ConnectTo: []forwarder.HostPortPair{rig.Route("torn.test", "80", origin.Addr)}})
+	if err != nil {
+		ctx.Crash("proxy starts with a valid configuration", "", tc, err.Error())
+		return
+	}
+	defer p.Stop()
+	c, err := rig.Dial(p.Addr)
+	if err != nil {
+		ctx.Crash("proxy accepts a client connection", "", tc, err.Error())
+		return
+	}
+	defer c.Close()
+	// two requests back to back on one connection: the second must never be answered inside the first body
+	c.Send([]byte("GET /torn HTTP/1.1\r\nHost: torn.test\r\nCase-Id: torn\r\n\r\nGET /second HTTP/1.1\r\nHost: torn.test\r\nCase-Id: second\r\n\r\n"), nil)
+	all, timedOut := c.ReadAll(4 * time.Second)
+	impl := fmt.Sprintf("client read %d bytes, connection closed=%v, head=%q", len(all), !timedOut, firstLine(all))
+	if bytes.Contains(all, []byte("second-response")) && !completeBefore(all) {
+		ctx.SpecFail("no bytes of one message leak into the next", "", tc, impl, "the second response arrived inside the torn first response")
+	}
+	if timedOut {
+		ctx.SpecFail("a response whose body cannot be completed ends with the connection", "", tc, impl, "connection left open after a torn body")
+		ctx.Disagree("torn body after the head ⇒ close (Model.Resp / C12 fault model)", tc, impl, "closed")
+		return
+	}
+	// what arrived must not parse as a complete first response
+	if m, err := rig.ReadResponse(bufioReader(all), "GET"); err == nil && m.Complete && m.Get("X-Echo-Id") == "torn" && tc.Fault != "short-cl-complete" {
+		ctx.SpecFail("a truncated response never parses as complete", "", tc, impl, "client-side parser accepted the torn response as complete")
+	}
+	ctx.TraceValidated()
+}
+
+func firstLine(b []byte) string {
+	if i := bytes.IndexByte(b, '\n'); i >= 0 {
+		return string(b[:i])
+	}
+	return string(b)
+}
+
+// completeBefore reports whether the byte stream starts with a COMPLETE first response (then a second
+// one following it is legitimate).
+func completeBefore(all []byte) bool {
+	m, err := rig.ReadResponse(bufioReader(all), "GET")
+	return err == nil && m.Complete && m.Framing != "eof"
 }
